@@ -249,7 +249,8 @@ class Report:
         return bool(ok)
 
     def unknown(self, what: str) -> None:
-        self.unknowns.append(what)
+        if what not in self.unknowns:
+            self.unknowns.append(what)
 
     def assume(self, what: str) -> None:
         if what not in self.assumptions:
